@@ -161,7 +161,7 @@ def cases(seed, tier):
     out = []
     for k in range(n):
         r = random.Random(sch.np_seed(f"c09.{k}"))
-        c = wp.std_case(r, sch.np_seed(f"s{k}") % (2**31), kinds=("gauss", "bimodal", "hole"), scenarios=("plain",), evals=("scalar", "vector"), blobs=(0,), clustering=(k % 2 == 0), vv=False, n_totals=(64, 96))
+        c = wp.std_case(r, sch.np_seed(f"s{k}") % (2**31), kinds=("gauss", "bimodal", "hole"), scenarios=("plain",), evals=("scalar", "vector", "scalar", "poolint", "pool"), blobs=(0,), clustering=(k % 2 == 0), vv=False, n_totals=(64, 96))
         if r.random() < 0.5:
             c["resume_arm"] = r.randrange(3, 14)
         if k % 7 == 3:
